@@ -69,8 +69,25 @@ fn generate(seed: u64, tier: Tier, em: &mut Emitter) {
             emit_pair(em, &src, steps, parts, &["sweep"]);
         }
     });
+    // empty streamed sources: no partition at all (empty file) / only empty partitions
+    for src in [Src::Sharded(Shape::U, vec![], 0), Src::Sharded(Shape::U, vec![vec![], vec![]], 2),
+                Src::Sharded(Shape::KV, vec![], 0)] {
+        for parts in [0usize, 1, 4] {
+            let progs: Vec<Vec<Step>> = if src.shape() == Shape::U {
+                vec![vec![], vec![Step::CombineGlobally(Cid::Count, false, Some(1))],
+                     vec![Step::CombineGlobally(Cid::TopK(1), true, None)], vec![Step::Distinct],
+                     vec![Step::KeyBy(EFun::Id), Step::GroupByKey]]
+            } else {
+                vec![vec![Step::GroupByKey], vec![Step::CombineValues(Cid::Sum)],
+                     vec![Step::Join(JoinKind::Full, vec![], vec![pair(Val::Int(1), Val::Int(2))])]]
+            };
+            for steps in progs {
+                emit_pair(em, &src, &steps, parts, &["sweep", "empty_source"]);
+            }
+        }
+    }
     let mut rng = seed_mix(seed, 0xC01_0002);
-    let count = if tier == Tier::Quick { 1300 } else { 13000 };
+    let count = if tier == Tier::Quick { 1300 } else { 12000 };
     for _ in 0..count {
         let n = gen_len(&mut rng);
         let src = gen_src(&mut rng, n, true, true);
